@@ -34,6 +34,7 @@ func runC14(p *core.Prog, r *core.Report) {
 	// matched loosely makes every repeated copy rewrite the layout
 	c06R6(p, r, "C14.R7")
 	c14R8(p, r)
+	indexFreshRule(p, r, "C14.R9")
 }
 
 // c14R6: whether anything has to be written is decided by asking the target. The head request on the
@@ -819,4 +820,49 @@ func c14R8(p *core.Prog, r *core.Report) {
 		})
 	}
 	r.Check(bad == "", rule, "scheme/ocidir", "link-following file calls only", "", fmt.Sprintf("%s: the test made with it does not see a blob that is a link, although the reads of the scheme do (%d files examined)", bad, files))
+}
+
+// ---------------------------------------------------------------------------------------------
+// R9 the layout's index is what the file says now
+
+// indexFreshRule: whether the target already holds the image is read off index.json. Other writers
+// (another process, another client on the same directory) move tags by rewriting that file, so the
+// index handed out by the index reader has to be decoded from the file by this very call. An index
+// remembered from an earlier call — however carefully its staleness is guessed from size and
+// modification time — answers with the tag's previous digest, and a copy of the image the layout
+// already holds writes the manifest and the index again.
+func indexFreshRule(p *core.Prog, r *core.Report, rule string) {
+	r.Rule(rule, "the layout's index is read, not remembered: every return of the index reader of scheme/ocidir that can report success hands back an index built by this call (a local decoded into, a call result), never a value loaded from a field, a map or a package variable", 1)
+	rds := roleSet(p, ocidirRel, "OCIDir", "readIndex")
+	if len(rds) == 0 {
+		r.MissingAnchor(rule, ocidirRel+".(*OCIDir).readIndex")
+		return
+	}
+	for _, fn := range sortedFuncs(rds) {
+		bad := ""
+		n := 0
+		for _, ret := range core.Returns(fn) {
+			if len(ret.Results) == 0 || failureReturn(fn, ret) {
+				continue
+			}
+			n++
+			v := core.ReturnOperand(ret, 0)
+			for _, o := range core.Origins(v, core.SliceOpts{Helpers: core.Helpers(fn, 2)}) {
+				stale := o.Kind == core.OField || o.Kind == core.OGlobal
+				if !stale && o.Val != nil {
+					switch o.Val.(type) {
+					case *ssa.Lookup, *ssa.Index, *ssa.IndexAddr:
+						stale = true
+					}
+				}
+				if stale {
+					bad = p.Pos(ret.Pos()) + " (" + o.Describe() + ")"
+				}
+			}
+		}
+		if n == 0 {
+			continue
+		}
+		r.Check(bad == "", rule, p.FuncName(fn), "index decoded by this call", p.Pos(fn.Pos()), "the index returned at "+bad+" was not read from index.json by this call: a tag moved by another writer of the directory is answered with its previous digest")
+	}
 }
